@@ -600,6 +600,163 @@ def one_graph(ctx, batch, rng, atoms, bonds, kind, origin, do_match=True, polici
     return obs
 
 
+# ----------------------------------------------------------------------------------------------
+# query – edit – query sequences on ONE long-lived object (hidden state between calls)
+# ----------------------------------------------------------------------------------------------
+SESSION_KINDS = ["connectivity", "structure", "molecule", "ensemble"]
+
+
+def gen_edit(rng, atoms, bonds, serial):
+    """draw one edit that is legal on the current graph (graphs stay simple so that every query stays in its domain)"""
+    n = len(atoms)
+    present = {frozenset((b[0], b[1])) for b in bonds}
+    free = [(i, j) for i in range(n) for j in range(i + 1, n) if frozenset((i, j)) not in present]
+    choices = []
+    if free:
+        choices += ["connect"] * 4
+    if bonds:
+        choices += ["del_bond"] * 3 + ["set_bond"] * 2
+    if n > 2:
+        choices += ["del_atom"]
+    if n < 12:
+        choices += ["add_atom"] * 2
+    if n:
+        choices += ["set_atom"]
+    op = rng.choice(choices)
+    if op == "connect":
+        i, j = rng.choice(free)
+        if rng.chance(1, 2):
+            i, j = j, i
+        bt, st, lab, fo = rand_bond_attrs(rng, full=True)
+        return {"op": "connect", "i": i, "j": j, "bt": bt, "st": st, "label": lab, "fo": frac_s(fo),
+                "how": rng.choice(["connect", "append_bond"]), "spell": rng.choice(["obj", "idx", "label"])}
+    if op == "del_bond":
+        return {"op": "del_bond", "k": rng.below(len(bonds))}
+    if op == "set_bond":
+        bt, st, lab, fo = rand_bond_attrs(rng, full=True)
+        return {"op": "set_bond", "k": rng.below(len(bonds)), "bt": bt, "st": st, "label": lab, "fo": frac_s(fo)}
+    if op == "del_atom":
+        return {"op": "del_atom", "i": rng.below(n), "spell": rng.choice(["obj", "idx", "label"])}
+    if op == "add_atom":
+        z, iso, st = rand_atom(rng)
+        to = rng.below(n) if n and rng.chance(4, 5) else None
+        bt, bst, lab, fo = rand_bond_attrs(rng)
+        return {"op": "add_atom", "z": z, "iso": iso, "st": st, "name": f"n{serial}", "to": to, "bt": bt, "bst": bst,
+                "blabel": lab, "fo": frac_s(fo), "how": rng.choice(["append_atom", "add_atom"])}
+    z, iso, st = rand_atom(rng)
+    return {"op": "set_atom", "i": rng.below(n), "z": z, "iso": iso, "st": st, "name": f"r{serial}"}
+
+
+def apply_edit(c, atoms, bonds, e):
+    """the same edit on the live object and on the plain data"""
+    from molli.chem import Atom, AtomStereo, Bond, BondStereo, BondType, Element
+
+    def spell(i, how):
+        a = c.atoms[i]
+        return {"obj": a, "idx": i, "label": a.label, "neg": i - len(c.atoms)}[how]
+
+    op = e["op"]
+    if op == "connect":
+        kw = dict(btype=BondType(e["bt"]), stereo=BondStereo(e["st"]), label=e["label"], f_order=float(Fraction(e["fo"])))
+        if e["how"] == "connect":
+            c.connect(spell(e["i"], e["spell"]), spell(e["j"], e["spell"]), **kw)
+        else:
+            c.append_bond(Bond(c.atoms[e["i"]], c.atoms[e["j"]], **kw))
+        bonds.append((e["i"], e["j"], e["bt"], e["st"], e["label"], Fraction(e["fo"])))
+    elif op == "del_bond":
+        b = c.bonds[e["k"]]
+        c.del_bond(b)        # located by identity
+        bonds.pop(e["k"])
+    elif op == "set_bond":
+        b = c.bonds[e["k"]]
+        b.btype = BondType(e["bt"])
+        b.stereo = BondStereo(e["st"])
+        b.label = e["label"]
+        b.f_order = float(Fraction(e["fo"]))
+        old = bonds[e["k"]]
+        bonds[e["k"]] = (old[0], old[1], e["bt"], e["st"], e["label"], Fraction(e["fo"]))
+    elif op == "del_atom":
+        i = e["i"]
+        c.del_atom(spell(i, e["spell"]))
+        atoms.pop(i)
+        kept = [b for b in bonds if i not in (b[0], b[1])]
+        bonds[:] = [(b[0] - (b[0] > i), b[1] - (b[1] > i)) + tuple(b[2:]) for b in kept]
+    elif op == "add_atom":
+        a = Atom(Element(e["z"]), isotope=e["iso"], stereo=AtomStereo(e["st"]), label=e["name"])
+        if e["how"] == "add_atom" and hasattr(c, "add_atom"):
+            c.add_atom(a, [0.5, 0.25, -1.0])
+        else:
+            c.append_atom(a)
+        atoms.append((e["z"], e["iso"], e["st"]))
+        if e["to"] is not None:
+            c.connect(a, e["to"], btype=BondType(e["bt"]), stereo=BondStereo(e["bst"]), label=e["blabel"], f_order=float(Fraction(e["fo"])))
+            bonds.append((len(atoms) - 1, e["to"], e["bt"], e["bst"], e["blabel"], Fraction(e["fo"])))
+    elif op == "set_atom":
+        a = c.atoms[e["i"]]
+        a.element = Element(e["z"])
+        a.isotope = e["iso"]
+        a.stereo = AtomStereo(e["st"])
+        a.label = e["name"]
+        atoms[e["i"]] = (e["z"], e["iso"], e["st"])
+    else:
+        raise ValueError(op)
+
+
+def session_step(ctx, batch, rng, c, atoms, bonds, tag, policy, pattern):
+    """all queries on the live object as it is now, against the model / oracle of the graph as it is now"""
+    n = len(atoms)
+    line = q_line(n, bonds)
+    impl_line, obs = impl_query(c, n, bonds, policy, rng)
+    ctx.case(line + "#" + str(len(tag["edits"])), nontrivial=len(bonds) > 0 and len(tag["edits"]) > 0)
+    for k, v in obs["spellings"].items():
+        ctx.count(f"designator:{k}", v)
+    batch.add(line, impl_line, tag)
+    oracle_query(ctx, n, bonds, obs, tag, is_simple(bonds))
+    if pattern is not None and n:
+        G = (list(atoms), list(bonds))
+        cP = build(pattern[0], pattern[1], "connectivity", rng)
+        got, got2 = impl_match(c, cP)
+        mtag = {**tag, "pattern": graph_json(*pattern)}
+        if got != got2:
+            ctx.violation("C15:match-vs-get_substr_indices", f"{type(c).__name__}: match() gives {got2[:4]}, get_substr_indices {got[:4]}", mtag)
+        batch.add(m_line(pattern, G), "-" if not got else "|".join(".".join(str(x) for x in phi) for phi in got), mtag)
+        oracle_match(ctx, pattern, G, got, mtag)
+        ctx.count("session:matches")
+    return obs
+
+
+def run_session(ctx, batch, rng, atoms, bonds, kind, nsteps=None, script=None):
+    """query, edit, query, … on one object.  `script` replays recorded edits; otherwise `nsteps` edits are drawn."""
+    atoms, bonds = list(atoms), list(bonds)
+    initial = graph_json(atoms, bonds)
+    c = build(atoms, bonds, kind, rng)
+    edits = []
+    ctx.count("session:sessions")
+    ctx.count(f"session:class:{type(c).__name__}")
+    pattern = make_pattern(rng, (atoms, bonds), maxsize=4) if atoms else None
+    steps = len(script) if script is not None else nsteps
+    ring_before = None
+    for t in range(steps + 1):
+        tag = {"op": "session", "graph": initial, "kind": kind, "edits": list(edits),
+               "designators": rng.choice(["obj", "idx", "mixed"])}
+        obs = session_step(ctx, batch, rng, c, atoms, bonds, tag, tag["designators"], pattern)
+        ring_now = {frozenset((b[0], b[1])): r for b, r in zip(bonds, obs["ring"])}
+        if ring_before is not None and any(ring_before.get(k) not in (None, v) for k, v in ring_now.items()):
+            ctx.count("session:ring-flag-of-a-surviving-bond-changed")
+        ring_before = ring_now
+        if t == steps:
+            break
+        e = script[t] if script is not None else gen_edit(rng, atoms, bonds, t)
+        if e["op"] == "del_atom":
+            ring_before = None       # indices shift
+        apply_edit(c, atoms, bonds, e)
+        edits.append(e)
+        ctx.count(f"session:edit:{e['op']}")
+        if rng.chance(1, 4) and atoms:
+            pattern = make_pattern(rng, (atoms, bonds), maxsize=4)
+    return c
+
+
 def prefix_disconnected(P):
     """some prefix of the pattern's atom list is not connected although the pattern is (numbering not along the bonds)"""
     pa, pb = P
@@ -650,6 +807,10 @@ def run(ctx):
                 "blanked to Unknown, bond types altered, an edge dropped, or a free-standing pattern; pattern atoms numbered by a random "
                 "permutation; host class drawn from the six, pattern class from four); non-trivial = pattern of "
                 "≥ 2 atoms or a non-empty match set. Distinct by the canonical request line.")
+    ctx.rule += (" session-cases: one long-lived object (Connectivity / Structure / Molecule / ConformerEnsemble) queried completely, "
+                 "edited (connect / append_bond, del_bond, del_atom, append_atom / add_atom + connect, bond type / order / stereo / label "
+                 "changed, atom element / isotope / stereo / label changed), queried again …, 3–8 edits; every answer is compared with "
+                 "the model and the oracle for the graph as it is at that moment; non-trivial = after at least one edit, with a bond.")
     ctx.assumptions += [
         "A-nx: networkx' VF2 is not verified; its match sets are compared with the proven enumerator on every run",
         "A-simple: ring perception and matching are claimed for simple graphs (no parallel bonds, no loops); traversal, neighbours and valence for all bond lists",
@@ -674,7 +835,10 @@ def run(ctx):
         for f in sorted(cdir.glob("*.json")):
             j = json.loads(f.read_text())
             atoms, bonds = graph_from_json(j["graph"])
-            if j.get("op") == "m":
+            if j.get("op") == "session":
+                for kd in SESSION_KINDS:
+                    run_session(ctx, batch, rng, atoms, bonds, kd, script=j["edits"])
+            elif j.get("op") == "m":
                 P = graph_from_json(j["pattern"])
                 for hk in KINDS:
                     run_match(ctx, batch, rng, (atoms, bonds), P, "corpus", host_kind=hk)
@@ -723,6 +887,21 @@ def run(ctx):
         if len(batch.items) >= 1500:
             batch.flush()
     batch.flush()
+
+    # ---- query – edit – query sessions on long-lived objects ----
+    nsess = 70 if ctx.quick() else 1500
+    for k in range(nsess):
+        ctx.check_deadline()
+        if rng.chance(1, 3):
+            n = rng.range(2, 6)
+            pairs = rng.choice(list(all_graphs(n))) if n <= 5 else []
+        else:
+            n, pairs = random_graph(rng, 10)
+        atoms, bonds = decorate(rng, n, pairs)
+        run_session(ctx, batch, rng, atoms, bonds, rng.choice(SESSION_KINDS), nsteps=rng.range(3, 8))
+        if len(batch.items) >= 1500:
+            batch.flush()
+    batch.flush()
     ctx.driver = orig_driver
 
 
@@ -733,6 +912,16 @@ def replay(ctx, path):
     if "graph" not in r:
         return 0
     atoms, bonds = graph_from_json(r["graph"])
+    if r.get("op") == "session":
+        batch = Batch(ctx)
+        c = run_session(ctx, batch, ctx.rng, atoms, bonds, r.get("kind", "connectivity"), script=r["edits"])
+        print(f"session of {len(r['edits'])} edits re-run on a {type(c).__name__} with all queries between the edits:")
+        for e in r["edits"]:
+            print("   ", e)
+        batch.flush()
+        print("oracle violations:", [(v["kind"], v["what"][:160]) for v in ctx.violations][:6])
+        print("model disagreements:", len(ctx.disagreements))
+        return 0
     c = build(atoms, bonds, r.get("kind", "connectivity"), ctx.rng)
     if r.get("op") == "m":
         P = graph_from_json(r["pattern"])
